@@ -32,7 +32,8 @@ def run_case(case):
     k = case["k"]
     k1 = case.get("k1", k)          # limit at tracing time (types are collected under k1, merged under k)
     reals = [absmodel.real_value(v) for v in case["vals"]]
-    rec = {"tid": case["tid"], "k": k, "k1": k1, "vals": [absmodel.abs_value(x) for x in reals], "runs": []}
+    cyclic = any(v["k"] == "cyc" for v in case["vals"])
+    rec = {"tid": case["tid"], "k": k, "k1": k1, "vals": case["vals"] if cyclic else [absmodel.abs_value(x) for x in reals], "runs": []}
     for order in _orders(len(reals), case["tid"]):
         try:
             tys = [get_type(reals[i], k1) for i in order]
@@ -88,6 +89,9 @@ def gen_cases(tier, seed, env_text):
     add("singles/wide dicts 0..12 keys (exhaustive)", ([v] for v in wide), [0, 1, 2, 3, 10, 12, 200])
     add("singles/tiny2 depth-2 (exhaustive)", ([v] for v in tiny2), [0, 1, 2, 3])
     add("singles/recs: containers of two overlapping dicts (exhaustive)", ([v] for v in recs), [0, 1, 2, 3])
+    # finite values that contain themselves (inference must terminate without error on them too)
+    cyc = [absmodel.T("cyc", n) for n in ("list", "dict", "list_in_tuple")]
+    add("values that contain themselves", [[v] for v in cyc] + [[cyc[0], full1[0]]], [0, 3])
     atoms3 = [v for v in recs if v["k"] in ("atom", "str")]
     add("pairs/recs x {int, None, str} (exhaustive)", ([v, a] for v in recs for a in atoms3 if v is not a), [2, 3])
     add("pairs/recs (sampled)", (rng.sample(recs, 2) for _ in range(4000 if tier == "quick" else 60000)), [2, 3])
@@ -203,6 +207,8 @@ def main(pid, tier, seed, replay=None):
                    "value_kinds": sorted(set().union(*[kinds_in(x) for x in rec["vals"]])),
                    "n_values": len(rec["vals"]),
                    "errs": sorted({r["err"] for r in rec["runs"]} - {"NONE"})}
+            if "cyc" in vio["value_kinds"]:
+                vio = {"clause": clause, "self_containing_value": True, "errs": vio["errs"]}
             c = case_by_tid[v["tid"]]
             if clause == "Tight":
                 vio["has_str_subclass_key"] = any(_has_sub_key(x) for x in rec["vals"])
